@@ -505,7 +505,12 @@ def evaluate_payload_template(input, context, template):
 
             try:
                 input_bytes = bytes(args[0], "utf-8")  # Get bytes from string
-                return base64.b64decode(input_bytes).decode("utf-8")
+                # validate=True so that characters outside the base64 alphabet
+                # are an error rather than being silently discarded, the
+                # length check rejects missing or excess padding.
+                if len(input_bytes) % 4 != 0:
+                    raise ValueError("length is not a multiple of four")
+                return base64.b64decode(input_bytes, validate=True).decode("utf-8")
             except Exception as e:
                 raise IntrinsicFailure(
                     "States.Base64Decode failed with {}.".format(e)
